@@ -63,6 +63,9 @@ func c11Judge(w *mon.W, caseID, s string, allSplits, expand, hasU bool) {
 		fail("reverse complement of %q: %s", clip(s, 100), p)
 		return
 	}
+	retainCheck(w, caseID, "ReverseComplement", rc, "transform.ReverseComplement of "+clip(s, 60))
+	retainCheck(w, caseID, "Complement", comp, "transform.Complement of "+clip(s, 60))
+	retainCheck(w, caseID, "Reverse", rev, "transform.Reverse of the complement of "+clip(s, 60))
 	if len(rc) != len(s) {
 		fail("ReverseComplement(%q) has length %d, input %d", clip(s, 100), len(rc), len(s))
 		return
